@@ -409,6 +409,7 @@ func (bg *BondgoCheck) Visit(n ast.Node) ast.Visitor {
 								regname := procbuilder.Get_register_name(cell.Id)
 								bg.WriteLine(bg.CurrentRoutine, "r2m "+regname+" "+strconv.Itoa(resp.Cell.Id))
 								bg.Used <- UsageNotify{TR_PROC, bg.CurrentRoutine, C_OPCODE, "r2m", I_NIL}
+								bg.Vars[vari] = resp.Cell
 								bg.Reqs <- VarReq{REQ_REMOVE, bg.CurrentRoutine, cell}
 								if (<-bg.Answers).AnsType != ANS_OK {
 									bg.Set_faulty("Resource clean failed")
